@@ -1,6 +1,7 @@
 package astits
 
 import (
+	"bytes"
 	"sort"
 )
 
@@ -22,6 +23,12 @@ func newPacketAccumulator(pid uint16, programMap *programMap) *packetAccumulator
 // add adds a new packet for this PID to the queue
 func (b *packetAccumulator) add(p *Packet) (ps []*Packet) {
 	mps := b.q
+
+	// Throw away a duplicate of the previous packet (same continuity counter and same payload) before
+	// the discontinuity check, otherwise it is mistaken for a discontinuity and the whole buffer is lost
+	if isSameAsPrevious(mps, p) && bytes.Equal(p.Payload, mps[len(mps)-1].Payload) {
+		return
+	}
 
 	// Empty buffer if we detect a discontinuity
 	if hasDiscontinuity(mps, p) {
